@@ -8,7 +8,7 @@
    coherence invariant [Coh] (no quad has both an "add" and a "remove" entry)
    instead of list equality. *)
 From Coq Require Import Permutation.
-From RV Require Import Auditable.OverStore Auditable.Proofs.
+From RV Require Import Auditable.OverStore Auditable.Proofs Auditable.SpecExt.
 
 (* ---------- list.remove(x) and cancel-or-append, up to permutation ---------- *)
 Lemma remove_first_perm e l l' : remove_first e l = Some l' -> Permutation l (e :: l').
@@ -535,14 +535,14 @@ Section OverProofs.
   Qed.
 
   Theorem over_store_refines_U U : forall ops x s, Sim x s -> Uinv U s -> incl (add_quads ops) U ->
-    Forall2 (fun m S => Abs m S /\ incl S U) (x_run x ops) (a_run s (map to_aop ops)).
+    Forall2 (fun m S => Abs m S /\ incl S U /\ NoDup S) (x_run x ops) (a_run s (map to_aop ops)).
   Proof.
     induction ops as [|o r IH]; intros x s H Hu Ho; simpl; [constructor|].
     pose proof (sim_step x s o H) as H'.
     assert (Hu' : Uinv U (a_step s (to_aop o))).
     { apply Uinv_step; auto; [apply H|]. intros q Hq. apply Ho. simpl. apply in_or_app. left.
       simpl in Hq. now rewrite app_nil_r in Hq. }
-    constructor; [split; [apply H'|apply Hu']|].
+    constructor; [split; [apply H'|split; [apply Hu'|apply H']]|].
     apply IH; auto. intros q Hq. apply Ho. simpl. apply in_or_app. now right.
   Qed.
 
@@ -562,7 +562,20 @@ Section OverProofs.
     intros Hi Ha Hn Hs Ho. apply obs_eqb_Forall2.
     assert (HF := over_store_refines_U U ops (x_init m) (a_init S) (Sim_init m S Hi Ha Hn)).
     assert (Hu : Uinv U (a_init S)) by (split; [exact Hs|intros [] q b []]).
-    specialize (HF Hu Ho). clear -HF. induction HF as [|x y a b [H1 H2] _ IH]; simpl; constructor; auto.
+    specialize (HF Hu Ho). clear -HF. induction HF as [|x y a b (H1 & H2 & _) _ IH]; simpl; constructor; auto.
     now apply absl_seteq.
+  Qed.
+
+  (* ... and, the universe being duplicate-free, related the way the specification checker cannot
+     tell apart (Auditable/SpecExt.v) *)
+  Theorem over_store_obs_rel U m S ops :
+    Inv m -> Abs m S -> NoDup S -> NoDup U -> incl S U -> incl (add_quads ops) U ->
+    Forall2 obs_rel (map (absl U) (x_run (x_init m) ops)) (a_run (a_init S) (map to_aop ops)).
+  Proof.
+    intros Hi Ha Hn HU Hs Ho.
+    assert (HF := over_store_refines_U U ops (x_init m) (a_init S) (Sim_init m S Hi Ha Hn)).
+    assert (Hu : Uinv U (a_init S)) by (split; [exact Hs|intros [] q b []]).
+    specialize (HF Hu Ho). clear -HF HU. induction HF as [|x y a b (H1 & H2 & H3) _ IH]; simpl; constructor; auto.
+    split; [now apply absl_seteq|split; auto]. unfold OverStore.absl. now apply filter_NoDup.
   Qed.
 End OverProofs.
